@@ -316,18 +316,44 @@ fn c18_residual_verify_gate_scalars() {
     kani::cover!(ok);
 }
 
-/// Field-wise identical copy of `c` whose loop-steering scalars are the (asserted equal) concrete
-/// values: lets CBMC bound the writer's loops by constants (a value moved out of a `Result` loses
-/// constant propagation: block 2 measured 267 s without, 41 s with the copy).
-fn residual_with_concrete_shape(c: Residual, order: usize, bs: usize, w: usize) -> Residual {
+/// Field-wise identical copy of `c`, rebuilt from the (asserted equal) concrete scalars and the
+/// argument arrays: a value moved out of a `Result` loses CBMC's constant propagation for the
+/// loop-steering scalars and the Vec pointers (block 2: 267 s with the moved value, 41 s with the
+/// copy).  The cached sums are taken from `c`.
+fn residual_rebuilt(
+    c: Residual,
+    order: usize,
+    bs: usize,
+    w: usize,
+    p: &[u8],
+    q: &[u32],
+    r: &[u32],
+) -> Residual {
     assert!(c.partition_order as usize == order && c.block_size == bs && c.warmup_length == w);
+    assert!(c.rice_params.len() == p.len());
+    assert!(c.quotients.len() == q.len() && c.remainders.len() == r.len());
+    let mut i = 0;
+    while i < p.len() {
+        assert!(c.rice_params[i] == p[i]);
+        i += 1;
+    }
+    let mut i = 0;
+    while i < q.len() {
+        assert!(c.quotients[i] == q[i]);
+        i += 1;
+    }
+    let mut i = 0;
+    while i < r.len() {
+        assert!(c.remainders[i] == r[i]);
+        i += 1;
+    }
     Residual {
         partition_order: order as u8,
         block_size: bs,
         warmup_length: w,
-        rice_params: c.rice_params,
-        quotients: c.quotients,
-        remainders: c.remainders,
+        rice_params: p.to_vec(),
+        quotients: q.to_vec(),
+        remainders: r.to_vec(),
         sum_quotients: c.sum_quotients,
         sum_rice_params: c.sum_rice_params,
     }
@@ -349,7 +375,7 @@ fn residual_new_ok_serialises<const NP: usize, const N: usize>(order: usize, w: 
     }
     match Residual::new(order, N, w, &p, &q, &r) {
         Ok(c) => {
-            let c = residual_with_concrete_shape(c, order, N, w);
+            let c = residual_rebuilt(c, order, N, w, &p, &q, &r);
             let bits = spec_residual_wellformed(&c);
             let s = serialises(&c);
             assert!(s.id.len as u64 == bits);
@@ -610,15 +636,31 @@ fn c18_verbatim_new() {
 
 /// A residual as a user of the public API can obtain it: an `Ok` result of `Residual::new`, with
 /// partition order 0, block size 3, the given warm-up length and symbolic contents.
-fn any_public_residual(w: usize) -> Option<Residual> {
+fn any_public_residual(w: usize) -> Option<(Residual, [u8; 1], [u32; 3], [u32; 3])> {
     let p: [u8; 1] = kani::any();
     let q: [u32; 3] = kani::any();
     let r: [u32; 3] = kani::any();
     kani::assume(q[0] <= 70 && q[1] <= 70 && q[2] <= 70);
     match Residual::new(0, 3, w, &p, &q, &r) {
-        Ok(c) => Some(residual_with_concrete_shape(c, 0, 3, w)),
+        Ok(c) => Some((residual_rebuilt(c, 0, 3, w, &p, &q, &r), p, q, r)),
         Err(_) => None,
     }
+}
+
+/// Copy of a heapless vector with a concrete length (contents asserted equal).
+fn heapless_rebuilt<const NW: usize, const CAP: usize>(
+    v: &heapless::Vec<i32, CAP>,
+    warm: &[i32; NW],
+) -> heapless::Vec<i32, CAP> {
+    assert!(v.len() == NW);
+    let mut out = heapless::Vec::<i32, CAP>::new();
+    let mut i = 0;
+    while i < NW {
+        assert!(v[i] == warm[i]);
+        out.push(warm[i]).unwrap();
+        i += 1;
+    }
+    out
 }
 
 /// `FixedLpc::new` with NW warm-up samples (symbolic), a public residual of block 3 whose own
@@ -628,7 +670,7 @@ fn any_public_residual(w: usize) -> Option<Residual> {
 fn fixed_lpc_new<const NW: usize>(rw: usize) -> bool {
     let warm: [i32; NW] = kani::any();
     let bps: usize = kani::any();
-    let Some(res) = any_public_residual(rw) else {
+    let Some((res, rp, rq, rr)) = any_public_residual(rw) else {
         return false;
     };
     match FixedLpc::new(&warm, res, bps) {
@@ -641,8 +683,8 @@ fn fixed_lpc_new<const NW: usize>(rw: usize) -> bool {
                 i += 1;
             }
             let c = FixedLpc {
-                warm_up: c.warm_up,
-                residual: residual_with_concrete_shape(c.residual, 0, 3, rw),
+                warm_up: heapless_rebuilt(&c.warm_up, &warm),
+                residual: residual_rebuilt(c.residual, 0, 3, rw, &rp, &rq, &rr),
                 bits_per_sample: c.bits_per_sample,
             };
             assert!(c.verify().is_ok());
@@ -692,7 +734,7 @@ fn lpc_new<const NW: usize, const NC: usize>(rw: usize) -> bool {
         return false;
     };
     let qp = qp_with_concrete_order(qp, NC);
-    let Some(res) = any_public_residual(rw) else {
+    let Some((res, rp, rq, rr)) = any_public_residual(rw) else {
         return false;
     };
     match Lpc::new(&warm, qp, res, bps) {
@@ -707,8 +749,8 @@ fn lpc_new<const NW: usize, const NC: usize>(rw: usize) -> bool {
             }
             let c = Lpc {
                 parameters: qp_with_concrete_order(c.parameters, NC),
-                warm_up: c.warm_up,
-                residual: residual_with_concrete_shape(c.residual, 0, 3, rw),
+                warm_up: heapless_rebuilt(&c.warm_up, &warm),
+                residual: residual_rebuilt(c.residual, 0, 3, rw, &rp, &rq, &rr),
                 bits_per_sample: c.bits_per_sample,
             };
             assert!(c.verify().is_ok());
@@ -918,52 +960,41 @@ fn c18_stream_info_setters() {
     kani::cover!(!r2);
 }
 
-fn x_fixed<const NW: usize>(rw: usize, mode: u8) {
-    let warm: [i32; NW] = kani::any();
-    let bps: usize = kani::any();
-    let Some(res) = any_public_residual(rw) else {
-        return;
-    };
-    match FixedLpc::new(&warm, res, bps) {
-        Ok(c) => {
-            let c = FixedLpc {
-                warm_up: c.warm_up,
-                residual: residual_with_concrete_shape(c.residual, 0, 3, rw),
-                bits_per_sample: c.bits_per_sample,
-            };
-            if mode == 0 { return; }
-            if mode == 1 { assert!(c.verify().is_ok()); return; }
-            if mode == 2 { serialises_len(&c); return; }
-            if mode == 3 { serialises(&c); return; }
-        }
-        Err(_) => {},
-    }
-}
-macro_rules! xf {
-    ($name:ident, $mode:expr) => {
-        #[kani::proof]
-        #[kani::unwind(8)]
-        #[kani::stub(std::fmt::format, stub_format)]
-        #[kani::stub(find_max, contract_find_max)]
-        #[kani::stub(wrapping_sum, contract_wrapping_sum)]
-        fn $name() {
-            x_fixed::<1>(1, $mode);
-        }
-    };
-}
-
-/// Replacement for `VerifyError::within` (appends a path component to an error value): the
-/// harnesses only observe `is_ok()/is_err()`, and growing a `Vec<String>` merged over ~30 error
-/// paths is what makes `FixedLpc::verify` / `Lpc::verify` intractable (> 400 s -> 20 s).
 fn stub_within(e: VerifyError, _component: &str) -> VerifyError {
     e
+}
+fn x_lit(mode: u8) {
+    let res = Residual {
+        partition_order: 0,
+        block_size: 3,
+        warmup_length: 1,
+        rice_params: Vec::from(kani::any::<[u8; 1]>()),
+        quotients: Vec::from(kani::any::<[u32; 3]>()),
+        remainders: Vec::from(kani::any::<[u32; 3]>()),
+        sum_quotients: kani::any(),
+        sum_rice_params: kani::any(),
+    };
+    if mode == 0 {
+        let ok = res.verify().is_ok();
+        kani::cover!(ok);
+        return;
+    }
+    let mut wu = heapless::Vec::<i32, 4>::new();
+    wu.push(kani::any()).unwrap();
+    let c = FixedLpc { warm_up: wu, residual: res, bits_per_sample: kani::any() };
+    let ok = c.verify().is_ok();
+    kani::cover!(ok);
 }
 #[kani::proof]
 #[kani::unwind(8)]
 #[kani::stub(std::fmt::format, stub_format)]
-#[kani::stub(find_max, contract_find_max)]
-#[kani::stub(wrapping_sum, contract_wrapping_sum)]
+fn x18_h0() { x_lit(0); }
+#[kani::proof]
+#[kani::unwind(8)]
+#[kani::stub(std::fmt::format, stub_format)]
+fn x18_h1() { x_lit(1); }
+#[kani::proof]
+#[kani::unwind(8)]
+#[kani::stub(std::fmt::format, stub_format)]
 #[kani::stub(VerifyError::within, stub_within)]
-fn x18_f1() {
-    x_fixed::<1>(1, 1);
-}
+fn x18_h2() { x_lit(1); }
